@@ -320,7 +320,8 @@ func (x *c26Inst) close() {
 	x.L = nil
 }
 
-// c26Pool: one in-memory ledger per BFS worker. A "fresh instance" is that
+// c26Pool: one ledger per worker (in-memory for the BFS, on-disk for the
+// crash cases). A "fresh instance" is that
 // ledger after every WORK* record was deleted and the records of the genesis
 // load were written back; the reset is verified against the dump taken right
 // after LoadGenesis (Badger does not expose deleted keys, so the ledger is
@@ -691,6 +692,7 @@ func c26HistNames(all []*c26Cfg, cfg *c26Cfg, hist []int) []string {
 
 type c26CrashStats struct {
 	refused, attempts, resubmitted, singleCommit, splitCommit atomic.Int64
+	reopenNs, closeNs, setupNs                                atomic.Int64
 }
 
 const (
@@ -719,7 +721,9 @@ func c26CrashCase(c *verifmc.Check, f *c26Fix, all []*c26Cfg, pt c26Point, mode 
 		c.Violation(key, desc, map[string]any{"mode": mname, "history": c26HistNames(all, pt.cfg, pt.hist), "then": steps})
 	}
 	x := &c26Inst{c: c, f: f, all: all, pool: pool, worker: worker}
+	ts := time.Now()
 	x.setup(pt.cfg, "")
+	st.setupNs.Add(int64(time.Since(ts)))
 	sdir := x.L.Store.VerifSnapshotsDir()
 	dir := filepath.Dir(sdir)
 	for _, e := range pt.hist {
@@ -753,7 +757,9 @@ func c26CrashCase(c *verifmc.Check, f *c26Fix, all []*c26Cfg, pt c26Point, mode 
 		}
 		st.refused.Add(arm.refused.Load())
 		x.oracle("crash", "refused commits", report)
+		tcl := time.Now()
 		_ = x.L.Store.Close()
+		st.closeNs.Add(int64(time.Since(tcl)))
 		c26Armed.Delete(sdir)
 	case mode >= c26ModeSplit:
 		e := mode - c26ModeSplit
@@ -783,7 +789,9 @@ func c26CrashCase(c *verifmc.Check, f *c26Fix, all []*c26Cfg, pt c26Point, mode 
 		_ = x.L.Store.Close()
 	}
 	// restart
+	t0 := time.Now()
 	store, err := OpenForVerif(dir)
+	st.reopenNs.Add(int64(time.Since(t0)))
 	if err != nil {
 		panic(fmt.Errorf("reopen %s: %v", dir, err))
 	}
@@ -850,7 +858,7 @@ func c26CrashCase(c *verifmc.Check, f *c26Fix, all []*c26Cfg, pt c26Point, mode 
 func TestMC_C26(t *testing.T) {
 	c := verifmc.Start(t, "C26", "model_checking")
 	defer c.Finish()
-	c.SetRule("BFS with state deduplication over all histories [fixture, call, call, ...]: fixture = (day/credit plan, signer layout) of one proposer P, three other signers and rounds 1..3 of three snapshots each around a day boundary, plus the two signer-less genesis snapshots of round 0; call = WriteRoundWork(P, round, first k snapshots of the round, credit[round]) for round 0..3, k 0..3. Calls that hit a panic of the function itself (round > offset+1, shrinking set, two days in one credited fresh batch) are executed, must panic and are not transitions; stale calls (round < offset) are transitions. State = fixture + reference (offset, submitted set, credited set) + digest of all WORK* records. Oracle in every state: ListNodeWorks(P,A,B,C,bystander) on 5 days = counters derived from the SET of snapshots handed to a non-stale credited call. Crash part: for every reference state reachable with <= n calls, on an on-disk ledger: (a) close and reopen, (b) every enabled call attempted with its commit refused through badger.VerifHook, then close and reopen, (c) per enabled call: only its first commit allowed (a crash point inside the call exists only if it is not one transaction); then the AggregateMintWork loop (ReadWorkOffset, ReadSnapshotWorksForNodeRound, WriteRoundWork for offset..3) with the oracle after every step")
+	c.SetRule("BFS with state deduplication over all histories [fixture, call, call, ...]: fixture = (day/credit plan, signer layout) of one proposer P, three other signers and rounds 1..3 of three snapshots each around a day boundary, plus the two signer-less genesis snapshots of round 0; call = WriteRoundWork(P, round, first k snapshots of the round, credit[round]) for round 0..3, k 0..3. Calls that hit a panic of the function itself (round > offset+1, shrinking set, two days in one credited fresh batch) are executed, must panic and are not transitions; stale calls (round < offset) are transitions. State = fixture + reference (offset, submitted set, credited set) + digest of all WORK* records. Oracle in every state: ListNodeWorks(P,A,B,C,bystander) on 5 days = counters derived from the SET of snapshots handed to a non-stale credited call. Crash part: for every reference state reachable with <= n calls, on an on-disk ledger: (a, thorough only, subsumed by b) close and reopen, (b) every enabled call attempted with its commit refused through badger.VerifHook, then close and reopen, (c) per enabled call: only its first commit allowed (a crash point inside the call exists only if it is not one transaction); then the AggregateMintWork loop (ReadWorkOffset, ReadSnapshotWorksForNodeRound, WriteRoundWork for offset..3) with the oracle after every step")
 	c.Assume("credit is fixed per round (kernel rule day(first(r)) == day(first(r+1)), or always true as in the mainnet fork-batch exception); every non-genesis snapshot is signed by its proposer; snapshot timestamps within a chain are distinct; a refused Badger commit leaves no trace (checked) and a closed+reopened on-disk store stands for a crashed process (Badger durability itself is trusted); dedup key contains every record WriteRoundWork reads")
 
 	f := c26NewFix(c)
@@ -929,8 +937,8 @@ func TestMC_C26(t *testing.T) {
 	}
 	cdepth := verifmc.Pick(c, 2, 3)
 	var ccfgs []*c26Cfg
-	// quick: one layout of four plans; thorough: four layouts of every plan
-	for i := 6; i < len(cfgs); i += len(layouts) / verifmc.Pick(c, 1, 4) {
+	// quick: one layout of four plans; thorough: two layouts of every plan
+	for i := 6; i < len(cfgs); i += len(layouts) / verifmc.Pick(c, 1, 2) {
 		if name := c26Plans[cfgs[i].Plan].Name; !c.Thorough() && (name == "firstRoundOfDayBefore" || name == "forcedStraddle21") {
 			continue
 		}
@@ -947,11 +955,17 @@ func TestMC_C26(t *testing.T) {
 	dpool := &c26Pool{c: c, base: filepath.Join(scratch, "c26-crash"), slots: map[int]*c26Slot{}}
 	tc := time.Now()
 	c.ParallelN(nm*len(points), "crash cases", func(w, i int) {
+		if i%nm == c26ModeReopen && !c.Thorough() {
+			// quick: the plain crash-after-commit is the prefix of the
+			// commit-refused case (same history, same restart) and is left to it
+			return
+		}
 		c26CrashCase(c, f, cfgs, points[i/nm], i%nm, dpool, w, &st)
 	})
 	dpool.closeAll()
 	_ = os.RemoveAll(dpool.base)
 	c.Set("crash_wall_s", time.Since(tc).Seconds())
+	c.Set("crash_worker_s_reopen_close_setup", []float64{float64(st.reopenNs.Load()) / 1e9, float64(st.closeNs.Load()) / 1e9, float64(st.setupNs.Load()) / 1e9})
 	c.Set("crash_commits_refused", st.refused.Load())
 	c.Set("crash_restarts_resubmitting_a_recorded_set", st.resubmitted.Load())
 	c.Set("crash_calls_found_to_be_one_transaction", st.singleCommit.Load())
